@@ -127,6 +127,12 @@ def run(tier):
     fb = copy.deepcopy(f)
     fb["coeff"][0][2] += 1
     vs, _ = tlc.validate("GeomTrace", [{k: v for k, v in r.items() if k != "tag"} for r in (e, eb, f, fb)])
+    import networkx as nx
+    lay = geom.layout_record(nx.path_graph(5), 1.0, 7, "path5", align=(1.0, 0.0))
+    layb = copy.deepcopy(lay)
+    layb["align_ppm"] = 500000                                   # as if the drawing stood at 30 degrees to the requested axis
+    lvs, _ = tlc.validate("GeomTrace", [{k: v for k, v in r.items() if k not in ("tag", "bond", "seed")} for r in (lay, layb)])
+    _expect("layout: longest extent off the requested axis", lvs[0], lvs[1], "X_Aligned", results)
     _expect("bridge: two nodes' coordinate owners swapped", vs[0], vs[1], "C18_OwnPosition", results)
     _expect("forward map: one coefficient perturbed", vs[2], vs[3], "C18_BeadIsNormalisedAverage", results)
     # ---- GraphOps (spec -> code): one expected key / one returned fragment corrupted ----------------
